@@ -43,6 +43,12 @@ def firstErr : List (Item Nat SItem) → Option Nat
   | .ok _ :: xs => firstErr xs
   | .err e :: _ => some e
 
+/-- multiset inclusion of two lists sorted by `itemTotalLe` -/
+def subMulti : List SItem → List SItem → Bool
+  | [], _ => true
+  | _ :: _, [] => false
+  | a :: as, b :: bs => if a == b then subMulti as bs else if itemTotalLe b a then subMulti (a :: as) bs else false
+
 /-! ## C10 -/
 def handleC10 (inp obs : List String) : Verdict :=
   let parsed := (do let rev ← bool; let n ← nat; let chunks ← many (many pChunkItem); pure (rev, n, chunks)).run inp
@@ -81,6 +87,7 @@ def handleC10 (inp obs : List String) : Verdict :=
       let pre := beforeFirstErr outs
       let specFail : Option String :=
         if !(sortedFor rev pre) then some s!"items before the first error are not in order: {showItems pre}"
+        else if !(subMulti (canonMulti pre) (canonMulti allOk)) then some s!"items delivered that no chunk contains (or an item delivered twice): {showItems pre}"
         else if len != n then some s!"len() = {len}, constructed with {n}"
         else if !(hasErr outs) then
           if anyErr then some "a chunk produced an error but the merged stream ended without delivering one"
@@ -95,8 +102,12 @@ def handleC10 (inp obs : List String) : Verdict :=
         let mpre := beforeFirstErr m.1
         let mExtra1 := m.2.next cmp
         let mExtra2 := mExtra1.2.next cmp
-        if canonTies rev mpre != canonTies rev pre || firstErr m.1 != firstErr outs ||
-           (!(hasErr outs) && (mExtra1.1.isSome || mExtra2.1.isSome)) then
+        -- without errors the stream is determined up to the order of ties; with an error item somewhere the
+        -- property fixes only that an error is delivered and that the items before it are in order — not
+        -- where in the stream the error appears nor which chunk's error comes first
+        let disagree := if anyErr then hasErr m.1 != hasErr outs
+          else canonTies rev mpre != canonTies rev pre || firstErr m.1 != firstErr outs || mExtra1.1.isSome || mExtra2.1.isSome
+        if disagree then
           { kind := "diverge", nontrivial, classes, detail := s!"model: before first error {showItems mpre}, first error {firstErr m.1}; implementation: {showItems pre}, {firstErr outs}" }
         else { kind := "ok", nontrivial, classes }
   | _, _ => { kind := "badcase", detail := "unparsable C10 case" }
